@@ -294,6 +294,16 @@ def e2e_cases(ctx, rng, count):
                 opts.pop(k, None)
             if now.year < 2023:
                 now = now.replace(year=2023)
+        if stream == "syn9" and (i // 11) % 2 == 1:
+            # the URL spells options with exactly the SERVER's default values although the stream's stored
+            # defaults differ: an explicit value wins over the stream default on the manifest side, so it has
+            # to reach the media side as well (it must not be dropped as "equal to the default")
+            from dashlive.server.options.repository import OptionsRepository
+            sd_ = OptionsRepository.get_default_options()
+            opts["depth"] = str(int(sd_.timeShiftBufferDepth))
+            opts["leeway"] = str(int(sd_.leeway))
+            opts["start"] = "year" if (i // 22) % 2 == 0 else "epoch"
+            opts.pop("mup", None)
         # (`year` is the server default: the calendar cases leave it out of the URL half of the time)
         q = "&".join(f"{k}={v}" for k, v in opts.items() if not (k == "start" and v == "year" and i % 10 == 2))
         out.append((stream, f"/dash/live/{stream}/{man}?{q}", now, opts))
@@ -441,14 +451,21 @@ def search(ctx, disagreements):
 def replay(ctx, payload):
     f = payload.get("failure") or {}
     if "fetch" in f:
+        # re-create the history: the manifest is requested again at the same clock and the segment is fetched
+        # through the URL *this* manifest spells out for the same Representation and $Time$/$Number$ value
         import appboot
+        import random
         import segchecks
-        import segwalk
+        ft = f["fetch"]
         app = segchecks.get_app()
-        with appboot.Clock(f["fetch"]["now"]):
-            r = segwalk.get(app.client(), f["fetch"]["url"])
-        return {"fails": r.status_code != 200, "status": r.status_code, "url": f["fetch"]["url"],
-                "now": f["fetch"]["now"]}
+        now = datetime.datetime.fromisoformat(ft["now"].replace("Z", "+00:00"))
+        with appboot.Clock(now) as clock:
+            mpd, status, fetches = segchecks.walk_manifest(app, app.client(), clock, ft["stream"], ft["manifest"], now,
+                                                           random.Random(0), per_rep=10 ** 6, want_init=ft["mode"] == "init")
+        same = [x for x in fetches if x.rep_id == ft["rep_id"] and x.mode == ft["mode"] and x.value == ft["value"]]
+        bad = [x for x in same if x.status != 200 and (x.mode == "init" or x.end_le_now)]
+        return {"fails": bool(bad), "manifest_status": status, "listed": bool(same),
+                "status": [x.status for x in same], "url": [x.url for x in same][:1], "now": ft["now"]}
     if "layout" in f and "request" in f:
         from dashlive.server.requesthandler.media_requests import LiveMedia
         lay = segpure.Layout.from_json(f["layout"])
